@@ -19,11 +19,37 @@ Definition no_overtake_rec (c : sched_case) (r : rrec) : bool :=
   | _, _ => true
   end.
 
+(* the revision a write was stamped with: from its answer, or — when it was answered with an error —
+   from the version record carrying its value that the final dump has and the initial dump has not *)
+Definition write_rev (c : sched_case) (r : rrec) : option N :=
+  match resp_exact_rev (rr_resp r) with
+  | Some x => Some x
+  | None =>
+      match rr_q r with
+      | RqCreate k v | RqUpdate k v _ =>
+          let fin := k_vers (lookup k_empty k (sc_final c)) in
+          let ini := k_vers (lookup k_empty k (sc_init c)) in
+          match filter (fun p => beqb (snd p) v && negb (existsb (fun p' => fst p' =? fst p) ini)) fin with
+          | p :: _ => Some (fst p)
+          | [] => None
+          end
+      | _ => None
+      end
+  end.
+
+(* while a write's commit is held inside the engine the read revision stays below the write's revision *)
+Definition hold_ok (c : sched_case) (r : rrec) : bool :=
+  match rr_hold r, write_rev c r with
+  | Some j, Some x => forallb (fun s => s <? x) (firstn (S j) (samples c))
+  | _, _ => true
+  end.
+
 Definition progress_ok (c : sched_case) : bool :=
   let recs := case_records c in
   records_complete c recs
   && monotone_from (sc_d0 c) (samples c)
   && forallb (no_overtake_rec c) recs
+  && forallb (hold_ok c) recs
   && forallb (fun s => s <? sc_marker c) (samples c)
   (* every request was stamped with one revision; at quiescence the node has reached the last one *)
   && negb (sc_stalled c)
